@@ -15,13 +15,24 @@ class SpyRunner(Runner):
         self.inner = inner
         self.rec = rec
         self.retention = retention     # RetentionObserver or None
+        self.idle_waits = 0
 
     def submit_task(self, task: Task, task_name: str, use_cache: bool) -> None:
+        self.idle_waits = 0
         self.rec.ev('submit', task.ident, bool(use_cache), task_name)
         return self.inner.submit_task(task, task_name, use_cache)
 
     def wait(self, *, timeout_seconds: Optional[float]) -> Iterator[tuple[Task, ResultMeta | BaseException]]:
         self.rec.ev('wait-enter')
+        # the coordinator keeps polling although nothing is submitted, running or queued: a spin
+        # (bounded here so that a hang of the serial backend is a verdict, not a wall-clock kill)
+        if self.inner.pending_task_count() == 0:
+            self.idle_waits += 1
+            if self.idle_waits > 25:
+                from .sim import SimAbort
+                raise SimAbort('spin', f'{self.idle_waits} consecutive wait() calls with nothing submitted or in flight')
+        else:
+            self.idle_waits = 0
         gen = self.inner.wait(timeout_seconds=timeout_seconds)
         count = 0
         try:
